@@ -73,7 +73,7 @@ func Wrap(v any) *Wrapper {
 		jsonTag := fs.Tag.Get("json")
 		apiTag := fs.Tag.Get("api")
 
-		if apiTag == "attr" {
+		if fs.Name != "ID" && apiTag == "attr" {
 			typ, null := GetAttrType(fs.Type.String())
 			w.attrs[jsonTag] = Attr{
 				Name:     jsonTag,
@@ -100,7 +100,7 @@ func Wrap(v any) *Wrapper {
 			toOne = false
 		}
 
-		if relTag[0] == "rel" {
+		if fs.Name != "ID" && relTag[0] == "rel" {
 			w.rels[jsonTag] = Rel{
 				FromName: jsonTag,
 				ToType:   relTag[1],
